@@ -1085,7 +1085,9 @@ def run_stateprep(drv, case) -> Outcome:
             for d in rec2.draws:
                 mix += reference(tuple(bool(x) for x in (d < eta))) / runs
             dm = _as_dm(res.state[-1].to_qobj())
-            if np.max(np.abs(dm - mix)) > 2e-4:
+            # (2e-3: both sides come out of the ODE solver, whose own error reaches a few 1e-4 with dissipation;
+            # a wrong weighting of the configurations moves entries by 1e-2 .. 0.5)
+            if np.max(np.abs(dm - mix)) > 2e-3:
                 out.fail("state-prep-mixture",
                          f"V2 density matrix differs from the mixture over the drawn configurations by "
                          f"{np.max(np.abs(dm - mix)):.3g} (diag {np.round(np.real(np.diag(dm)), 4)} vs "
